@@ -594,10 +594,27 @@ def body_struct_keys(sh):
         # the builder also shares the schemas of the object types INSIDE bodies: two attributes (of any two bodies) holding
         # structurally equal objects with different validations collide in the same way
         for i, a in b:
-            sg = struct_sig(a, "x")
-            if "obj{" in sg:
-                out.append((("inner", sg), (a["kind"], a["rule"], a["nest"])))
+            for o in inner_objects(struct_sig(a, "x")):
+                out.append((("inner", o), (a["kind"], a["rule"], a["nest"])))
     return out
+
+
+def inner_objects(sg):
+    """every object type (at any depth) of a struct_sig: the balanced obj{...} substrings"""
+    out, i = set(), sg.find("obj{")
+    while i >= 0:
+        depth, j = 0, i + 3
+        while True:
+            if sg[j] == "{":
+                depth += 1
+            elif sg[j] == "}":
+                depth -= 1
+                if depth == 0:
+                    break
+            j += 1
+        out.add(sg[i:j + 1])
+        i = sg.find("obj{", i + 4)
+    return sorted(out)
 
 
 def pack_designs(shapes, per_design=40, apart=None):
@@ -955,7 +972,9 @@ def observed_where(names_locs, wire, path_route=None, suffix=""):
 
 
 def classify(dv, sent, dflt):
-    if empty(dv) and (sent is None or empty(sent)):
+    # Emptyish of HTTPTransport.tla: an empty list / map / byte string (httpcheck.abstract_class computes the same on abstract values)
+    eb = lambda x: empty(x) or x == {"$bytes": ""}
+    if eb(dv) and (sent is None or eb(sent)):
         return "absent" if sent is None else "sent"
     if empty(dv):       # nil and empty containers are the same "nothing there"
         return "absent"
